@@ -221,6 +221,18 @@ SAFE_BUILTINS = {
     'abs': abs, 'sum': sum, 'any': any, 'all': all, 'pow': pow,
     'divmod': divmod, 'round': round, 'bytes': bytes, 'float': float,
 }
+import operator as _op
+OPERATOR_BIN = {
+    'add': _op.add, 'sub': _op.sub, 'mul': _op.mul, 'truediv': _op.truediv,
+    'floordiv': _op.floordiv, 'mod': _op.mod, 'pow': _op.pow,
+    'lshift': _op.lshift, 'rshift': _op.rshift, 'and': _op.and_,
+    'or': _op.or_, 'xor': _op.xor, 'lt': _op.lt, 'le': _op.le,
+    'eq': _op.eq, 'ne': _op.ne, 'ge': _op.ge, 'gt': _op.gt,
+    'is': _op.is_, 'is_not': _op.is_not, 'concat': _op.concat,
+}
+OPERATOR_UN = {'neg': _op.neg, 'pos': _op.pos, 'invert': _op.invert,
+               'inv': _op.inv, 'not': _op.not_, 'truth': _op.truth,
+               'abs': _op.abs, 'index': _op.index}
 EXC_NAMES = ('ValueError', 'TypeError', 'KeyError', 'AttributeError',
              'NotImplementedError', 'IOError', 'EOFError', 'Exception',
              'AssertionError', 'IndexError', 'RuntimeError', 'OSError')
@@ -472,10 +484,16 @@ class Folder(object):
         if isinstance(n.slice, ast.Slice):
             lo = self.eval(n.slice.lower, env) if n.slice.lower else None
             hi = self.eval(n.slice.upper, env) if n.slice.upper else None
+            step = self.eval(n.slice.step, env) if n.slice.step else None
             if isinstance(v, Opaque):
                 return v
-            return v[lo:hi]
+            if any(isinstance(x, Opaque) for x in (lo, hi, step)):
+                return Opaque('slice')
+            return v[lo:hi:step]
         k = self.eval(n.slice, env)
+        return self.subscript(v, k, n, env)
+
+    def subscript(self, v, k, n, env):
         if isinstance(v, Opaque) or isinstance(k, Opaque):
             return Opaque('subscript')
         if isinstance(v, ExtInstance) and v.callee == 'class.__dict__':
@@ -666,11 +684,42 @@ class Folder(object):
             return self.call_external(f, args, kwargs, n, env)
         if isinstance(f, Opaque):
             return Opaque('call of opaque')
+        if isinstance(f, ExtInstance):
+            r = self.call_library_object(f, args, kwargs, n, env)
+            if r is not NotImplemented:
+                return r
         raise self.err('call of %r' % (f,), n, env.module)
+
+    def call_library_object(self, f, args, kwargs, n, env):
+        """Calls of the callable objects the standard library hands out."""
+        c = f.callee
+        if c == 'functools.partial':
+            kw = dict(f.kwargs)
+            kw.update(kwargs)
+            return self.call(f.args[0], list(f.args[1:]) + list(args), kw,
+                             n, env)
+        if c == 'operator.attrgetter' and len(args) == 1 and not kwargs:
+            def one(path):
+                v = args[0]
+                for part in path.split('.'):
+                    v = self.getattr(v, part, n, env.module)
+                return v
+            vals = [one(a) for a in f.args]
+            return vals[0] if len(vals) == 1 else tuple(vals)
+        if c == 'operator.itemgetter' and len(args) == 1 and not kwargs:
+            vals = [self.subscript(args[0], k, n, env) for k in f.args]
+            return vals[0] if len(vals) == 1 else tuple(vals)
+        if c == 'operator.methodcaller' and len(args) == 1 and not kwargs:
+            m = self.getattr(args[0], f.args[0], n, env.module)
+            return self.call(m, list(f.args[1:]), dict(f.kwargs), n, env)
+        return NotImplemented
 
     def call_external(self, f, args, kwargs, n, env):
         d = f.dotted
         base = d.split('.')[-1]
+        r = self.call_library(d, args, kwargs, n, env)
+        if r is not NotImplemented:
+            return r
         if d.startswith('builtins.'):
             if base in ('staticmethod', 'classmethod'):
                 return args[0]
@@ -733,6 +782,7 @@ class Folder(object):
             return ExtInstance(d, args, kwargs)
         if d in ('collections.OrderedDict',):
             return dict(*args, **kwargs)
+
         if d == 'collections.namedtuple':
             fields = args[1]
             if isinstance(fields, str):
@@ -746,6 +796,114 @@ class Folder(object):
         if d == 'abc.register':
             return args[0] if args else None
         return ExtInstance(d, args, kwargs)
+
+    def call_library(self, d, args, kwargs, n, env):
+        """The pure functions of operator / functools / itertools and the
+        lazy builtins, over folded values (iterables are lists here)."""
+        opaque = any(isinstance(a, Opaque) for a in args)
+        if d.startswith('operator.') or d.startswith('_operator.'):
+            nm = d.split('.', 1)[1].strip('_')
+            if nm.startswith('i') and nm[1:] in OPERATOR_BIN and \
+                    nm not in OPERATOR_BIN:
+                nm = nm[1:]
+            if nm in OPERATOR_BIN and len(args) == 2:
+                if opaque:
+                    return Opaque(d)
+                a, b = args
+                if nm == 'mod' and isinstance(a, str):
+                    try:
+                        return a % (b,) if not isinstance(b, tuple) else a % b
+                    except Exception:
+                        return Opaque('format')
+                try:
+                    return OPERATOR_BIN[nm](a, b)
+                except TypeError:
+                    return Opaque(d)
+            if nm in OPERATOR_UN and len(args) == 1:
+                if nm == 'not':
+                    return not self.truth(args[0], n, env)
+                if nm == 'truth':
+                    return self.truth(args[0], n, env)
+                return Opaque(d) if opaque else OPERATOR_UN[nm](args[0])
+            if nm == 'getitem' and len(args) == 2:
+                return self.subscript(args[0], args[1], n, env)
+            if nm == 'contains' and len(args) == 2:
+                return Opaque(d) if opaque else args[1] in args[0]
+            return NotImplemented
+        if d == 'functools.reduce':
+            items = list(args[1])
+            if len(args) > 2:
+                acc = args[2]
+            elif items:
+                acc, items = items[0], items[1:]
+            else:
+                raise FoldRaise('TypeError', ('reduce of empty',), n)
+            for x in items:
+                acc = self.call(args[0], [acc, x], {}, n, env)
+            return acc
+        if d == 'builtins.next':
+            if isinstance(args[0], Opaque):
+                return Opaque('next')
+            items = list(args[0])
+            if items:
+                return items[0]
+            if len(args) > 1:
+                return args[1]
+            raise FoldRaise('StopIteration', (), n)
+        if d == 'builtins.iter' and len(args) == 1:
+            return args[0] if isinstance(args[0], Opaque) else list(args[0])
+        if d == 'builtins.filter':
+            if isinstance(args[1], Opaque):
+                return Opaque('filter')
+            return [x for x in list(args[1])
+                    if self.truth(x if args[0] is None else self.call(
+                        args[0], [x], {}, n, env), n, env)]
+        if d.startswith('itertools.'):
+            if opaque:
+                return Opaque(d)
+            nm = d.split('.', 1)[1]
+            if nm == 'chain':
+                return [x for a in args for x in list(a)]
+            if nm == 'chain.from_iterable':
+                return [x for a in list(args[0]) for x in list(a)]
+            if nm == 'compress':
+                return [x for x, sel in zip(list(args[0]), list(args[1]))
+                        if self.truth(sel, n, env)]
+            if nm in ('dropwhile', 'takewhile', 'filterfalse'):
+                items = list(args[1])
+                flags = [self.truth(self.call(args[0], [x], {}, n, env), n,
+                                    env) for x in items]
+                if nm == 'filterfalse':
+                    return [x for x, f in zip(items, flags) if not f]
+                k = 0
+                while k < len(items) and flags[k]:
+                    k += 1
+                return items[k:] if nm == 'dropwhile' else items[:k]
+            if nm == 'islice' and len(args) in (2, 3, 4):
+                return list(list(args[0])[slice(*args[1:])])
+            if nm == 'accumulate':
+                items, out = list(args[0]), []
+                fn = args[1] if len(args) > 1 else kwargs.get('func')
+                for x in items:
+                    out.append(x if not out else (
+                        out[-1] + x if fn is None else self.call(
+                            fn, [out[-1], x], {}, n, env)))
+                return out
+            if nm == 'starmap':
+                return [self.call(args[0], list(x), {}, n, env)
+                        for x in list(args[1])]
+            if nm == 'repeat' and len(args) == 2:
+                return [args[0]] * args[1]
+            if nm == 'product' and not kwargs:
+                import itertools as _it
+                return [tuple(x) for x in _it.product(
+                    *[list(a) for a in args])]
+            if nm == 'zip_longest':
+                import itertools as _it
+                return [tuple(x) for x in _it.zip_longest(
+                    *[list(a) for a in args], **kwargs)]
+            return NotImplemented
+        return NotImplemented
 
     def isinstance(self, v, t, n, env):
         if isinstance(v, Opaque):
@@ -856,7 +1014,8 @@ class Folder(object):
             args = [f.bound] + args
         memo_key = None
         body = fi.body
-        if len(body) <= 2 and isinstance(body[-1], ast.Return):
+        if len(body) <= 2 and isinstance(body[-1], ast.Return) and \
+                f.closure is None:
             try:
                 memo_key = (id(fi), tuple(_hashable(a) for a in args),
                             tuple(sorted((k, _hashable(v))
